@@ -2,99 +2,50 @@ import FeatherModel.Lemmas.TotalBase
 import FeatherModel.Model.TotalDyn
 
 /-!
-# C16 — `Dynamic` constants: the only panic is the exhausted stack; a constant that names itself exhausts every stack;
-forward-only (acyclic) argument structures need at most `k + 1` levels
+# C16 — `Dynamic` constants (after cb2ce34): no panic; every `with_capacity` is the length of an argument list
 -/
 
 namespace Total.Dyn
 
 open TM
 
-def openSites : List Nat := [Sites.stackDynamic]
-
-theorem sumArgs_spec {S : List Nat} {B : Nat} {f : Nat → TM Nat} (hf : ∀ j, Spec S B (f j) (fun _ => True)) :
-    ∀ args, Spec S B (sumArgs f args) (fun _ => True)
-  | [] => Spec.ret _ trivial
-  | .int :: rest => by
-    unfold sumArgs
-    exact Spec.bind (sumArgs_spec hf rest) (fun _ _ => Spec.ret _ trivial)
-  | .dyn j :: rest => by
-    unfold sumArgs
-    exact Spec.bind (hf j) (fun _ _ => Spec.bind (sumArgs_spec hf rest) (fun _ _ => Spec.ret _ trivial))
-
 /-- every bootstrap method has at most `B` arguments -/
 def ArgsLe (spec : Bsms) (B : Nat) : Prop := ∀ (i : Nat) (args : List Arg), spec[i]? = some args → args.length ≤ B
 
-theorem resolve_spec {S : List Nat} {B : Nat} {spec : Dyn.Bsms} (hS : Sites.stackDynamic ∈ S) (hB : ArgsLe spec B) :
-    ∀ gas level i, Total.Spec S B (resolve spec gas level i) (fun _ => True)
-  | 0, level, i => by
-    unfold resolve
-    exact Spec.bind (Spec.enter _) (fun _ _ => Spec.crash hS)
-  | gas + 1, level, i => by
-    unfold resolve
-    refine Spec.bind (Spec.enter _) (fun _ _ => ?_)
-    split
-    · exact Spec.fail
-    · rename_i args hargs
-      refine Spec.bind (Spec.request (hB i args hargs)) (fun _ _ => ?_)
-      exact Spec.bind (sumArgs_spec (fun j => resolve_spec hS hB gas (level + 1) j) args) (fun _ _ => Spec.ret _ trivial)
-
-/-! ## self reference -/
-
-theorem selfRef_overflows : ∀ gas level st, (resolve selfRef gas level 0 st).1 = .panic Sites.stackDynamic
-  | 0, level, st => by
-    simp [resolve, bnd_apply, enter_apply, crash_apply]
-  | gas + 1, level, st => by
-    have ih := selfRef_overflows gas (level + 1)
-    unfold resolve
-    rw [bnd_apply, enter_apply]
-    dsimp only
-    show ((match selfRef[0]? with
-      | none => TM.fail
-      | some args => do
-        request args.length
-        let n ← sumArgs (resolve selfRef gas (level + 1)) args
-        pure (1 + n)) _).1 = _
-    simp only [selfRef, List.getElem?_cons_zero]
-    rw [bnd_apply, request_apply]
-    dsimp only
-    apply bind_panic
+theorem sumArgs_spec {S : List Nat} {B : Nat} {inner : Option (Nat → TM Nat)}
+    (hi : ∀ f, inner = some f → ∀ j, Spec S B (f j) (fun _ => True)) :
+    ∀ args, Spec S B (sumArgs inner args) (fun _ => True)
+  | [] => Spec.ret _ trivial
+  | a :: rest => by
     unfold sumArgs
-    exact bind_panic (ih _)
+    cases inner with
+    | none => exact Spec.fail
+    | some f =>
+      dsimp only
+      refine Spec.bind (Q := fun _ => True) ?_ (fun _ _ => Spec.bind (sumArgs_spec hi rest) (fun _ _ => Spec.ret _ trivial))
+      cases a with
+      | int => exact Spec.ret _ trivial
+      | dyn j => exact hi f rfl j
 
-/-! ## acyclic structures -/
+theorem resolveWith_spec {S : List Nat} {B : Nat} {spec : Bsms} (hB : ArgsLe spec B) {inner : Option (Nat → TM Nat)}
+    (hi : ∀ f, inner = some f → ∀ j, Spec S B (f j) (fun _ => True)) (i : Nat) :
+    Spec S B (resolveWith spec inner i) (fun _ => True) := by
+  unfold resolveWith
+  split
+  · exact Spec.fail
+  · rename_i args hargs
+    refine Spec.bind (Spec.request (hB i args hargs)) (fun _ _ => ?_)
+    exact Spec.bind (sumArgs_spec hi args) (fun _ _ => Spec.ret _ trivial)
 
-/-- every argument refers to a constant with a larger index -/
-def Forward (spec : Bsms) : Prop := ∀ (i : Nat) (args : List Arg), spec[i]? = some args → ∀ j, Arg.dyn j ∈ args → i < j
-
-theorem sumArgs_short {f : Nat → TM Nat} {B : Nat} :
-    ∀ args : List Arg, (∀ j, Arg.dyn j ∈ args → Total.Spec [] B (f j) (fun _ => True)) →
-      Total.Spec [] B (sumArgs f args) (fun _ => True)
-  | [], _ => Spec.ret _ trivial
-  | .int :: rest, h => by
-    unfold sumArgs
-    exact Spec.bind (sumArgs_short rest (fun j hj => h j (List.mem_cons_of_mem _ hj))) (fun _ _ => Spec.ret _ trivial)
-  | .dyn j :: rest, h => by
-    unfold sumArgs
-    exact Spec.bind (h j (List.mem_cons_self ..)) (fun _ _ =>
-      Spec.bind (sumArgs_short rest (fun j hj => h j (List.mem_cons_of_mem _ hj))) (fun _ _ => Spec.ret _ trivial))
-
-theorem resolve_forward {B : Nat} {spec : Dyn.Bsms} (hf : Forward spec) (hB : ArgsLe spec B) :
-    ∀ gas level i, 1 ≤ gas → spec.length + 1 ≤ gas + i → Total.Spec [] B (resolve spec gas level i) (fun _ => True)
-  | 0, _, _, h, _ => by omega
-  | gas + 1, level, i, _, h => by
+theorem resolve_spec {S : List Nat} {B : Nat} {spec : Bsms} (hB : ArgsLe spec B) :
+    ∀ rem i, Spec S B (resolve spec rem i) (fun _ => True)
+  | 0, i => by
     unfold resolve
-    refine Spec.bind (Spec.enter _) (fun _ _ => ?_)
-    split
-    · exact Spec.fail
-    · rename_i args hargs
-      have hi : i < spec.length := by
-        have := List.getElem?_eq_some_iff.mp hargs
-        exact this.1
-      refine Spec.bind (Spec.request (hB i args hargs)) (fun _ _ => ?_)
-      refine Spec.bind (sumArgs_short args (fun j hj => ?_)) (fun _ _ => Spec.ret _ trivial)
-      have hij := hf i args hargs j hj
-      exact resolve_forward hf hB gas (level + 1) j (by omega) (by omega)
+    exact resolveWith_spec hB (fun f h => by simp at h) i
+  | rem + 1, i => by
+    unfold resolve
+    exact resolveWith_spec hB (fun f h j => by
+      simp only [Option.some.injEq] at h; subst h; exact resolve_spec hB rem j) i
 
 theorem mem_le_sum : ∀ (l : List Nat) (a : Nat), a ∈ l → a ≤ l.sum
   | [], a, h => by simp at h
